@@ -238,8 +238,10 @@ def rule_d(ctx):
         sbb, st = sets[0]
         ex = norm(post.expr(st["args"][1]))
         d = direct_call(post, st["args"][1])
-        okc = ("::get(" in ex and ex.rstrip(")").endswith("1_i64") and any(
-            k in ex for k in (" + 1_i64", "saturating_add(", "checked_add(", "wrapping_add(")) and " - " not in ex)
+        import re as _re
+        # the new value is (counter.get() + 1), possibly wrapped by an overflow policy (unwrap_or(.., MAX) after checked_add)
+        okc = bool(_re.search(r"\((<T>|Cell::<T>|std::cell::Cell::<T>)::get\([^()]*\) \+ 1_i64\)", ex)) and " - " not in ex and \
+            ex.count("::get(") == 1 and not _re.search(r"[*/]", ex.replace("::<", "").replace("i64::MAX", ""))
         ctx.check(okc, "C07-D", "Ol:counter+=1", st["span"], fn_key(post), "counter update is %s" % ex)
         errs = drops.error_blocks(post)
         leak = [r for r in post.reach_from(0, avoid={sbb} | errs) if post.term(r)["k"] == "return"]
